@@ -388,7 +388,7 @@ func ruleCorridor(w *World, r *Report) {
 		r.add("LAYERFIT", fn+" / layer counts", pos, Discharged, "hLayers, vLayers = max over all line voxels of FitClearanceAroundExtendedSpatialID(voxel, radius)")
 	} else {
 		st := Violated
-		if strings.HasPrefix(why, "expected one") || strings.Contains(why, "is not inside a loop over the line IDs") || strings.Contains(why, "do not come from one helper call") || strings.Contains(why, "are not the running maxima") || strings.Contains(why, "not the running maxima in a recognised form") || strings.Contains(why, "has no success return") {
+		if strings.Contains(why, "expected one") || strings.Contains(why, "is not called with (line voxel, radius)") && strings.Contains(why, "in helper") || strings.Contains(why, "is not inside a loop over the line IDs") || strings.Contains(why, "do not come from one helper call") || strings.Contains(why, "are not the running maxima") || strings.Contains(why, "not the running maxima in a recognised form") || strings.Contains(why, "has no success return") {
 			st = Undecided // the construction was not recognised; nothing wrong was seen
 		}
 		r.add("LAYERFIT", fn+" / layer counts", pos, st, why)
